@@ -363,6 +363,11 @@ def check_noisy(case):
         if min(np.linalg.norm(L @ geom.wrap(u - np.array(v))) for sp in noisy.basis for v in sp) < 0.1 * np.linalg.norm(L, axis=0).min():
             continue
         orb = noisy.Wyckoffpos(u)
+        for a_ in range(len(orb)):
+            for b_ in range(a_ + 1, len(orb)):
+                dist = np.linalg.norm(L @ geom.wrap(np.array(orb[a_]) - np.array(orb[b_])))
+                require(dist > 1e-3 * np.linalg.norm(L, axis=0).min(), lambda: "Wyckoffpos(%s) on a crystal built with threshold=1e-4 returns the same position twice "
+                        "(modulo the lattice): %s and %s (%d positions)" % (np.round(u, 4).tolist(), np.asarray(orb[a_]).tolist(), np.asarray(orb[b_]).tolist(), len(orb)))
         try:
             new = noisy.addbasis(orb)
         except ArithmeticError as e:
